@@ -465,7 +465,7 @@ def restore_checkpoint(path: str, model: nnx.Module) -> nnx.Module:
     """
     import orbax.checkpoint as ocp
 
-    checkpointer = ocp.PyTreeCheckpointer()
-    state = checkpointer.restore(path)
-    graphdef, _ = nnx.split(model)
+    checkpointer = ocp.StandardCheckpointer()
+    graphdef, target_state = nnx.split(model)
+    state = checkpointer.restore(path, target_state)
     return nnx.merge(graphdef, state)
